@@ -1,0 +1,29 @@
+//go:build verif
+
+package cms
+
+import "sync/atomic"
+
+// VerifCountMasterListLoads wraps the built-in master-list loaders with counting
+// wrappers (verification hook, only built with the 'verif' tag). The returned function
+// restores the original loaders.
+func VerifCountMasterListLoads(counter *atomic.Int64) (restore func()) {
+	origDe, origNl, origId := germanMasterListFn, dutchMasterListFn, indonesian2010SeriesCertsFn
+
+	germanMasterListFn = func() (*SignedDataCertPool, error) {
+		counter.Add(1)
+		return origDe()
+	}
+	dutchMasterListFn = func() (*SignedDataCertPool, error) {
+		counter.Add(1)
+		return origNl()
+	}
+	indonesian2010SeriesCertsFn = func() (*GenericCertPool, error) {
+		counter.Add(1)
+		return origId()
+	}
+
+	return func() {
+		germanMasterListFn, dutchMasterListFn, indonesian2010SeriesCertsFn = origDe, origNl, origId
+	}
+}
